@@ -12,7 +12,7 @@ PF_SOURCES = ("_get_model_function_parameter_formatters", "model_function_parame
 
 
 def _txt(n):
-    return " ".join(ast.unparse(n).split())
+    return common.src_of(n)
 
 
 def _kw(call, name, default=None):
